@@ -21,6 +21,35 @@ func (i *interpreter) timeNow(fn *ssa.Function) value {
 	return structure{uint64(0), ext, (*value)(nil)}
 }
 
+// model timers (time.AfterFunc): they fire when the harness advances the clock past their deadline
+type modelTimer struct {
+	deadline int64
+	fn       value
+	stopped  bool
+	fired    bool
+}
+
+func (i *interpreter) nowNanos() int64 { return int64(1_000_000_000) + i.clockBase + int64(i.clockReads) }
+
+func (i *interpreter) fireTimers() {
+	for {
+		var due *modelTimer
+		for _, t := range i.timers {
+			if !t.stopped && !t.fired && t.deadline <= i.nowNanos() {
+				if due == nil || t.deadline < due.deadline {
+					due = t
+				}
+			}
+		}
+		if due == nil {
+			return
+		}
+		due.fired = true
+		fn := due.fn
+		i.spawnThread(0, &nativeFunc{name: "timer", f: func(i *interpreter, _ []value) value { return call(i, nil, 0, fn, nil) }}, nil, false)
+	}
+}
+
 func anyType() types.Type { return types.NewInterfaceType(nil, nil).Complete() }
 
 var theAnyType = anyType()
@@ -32,6 +61,17 @@ func addSyncHooks(h map[string]hookFn) {
 			panic(runtimeErrorString("runtime error: invalid memory address or nil pointer dereference"))
 		}
 		return p
+	}
+	h["time.AfterFunc"] = func(i *interpreter, fr *frame, fn *ssa.Function, args []value) value {
+		t := &modelTimer{deadline: i.nowNanos() + i.concreteInt64(args[0], "timer duration"), fn: args[1]}
+		i.timers = append(i.timers, t)
+		return newHandle(t)
+	}
+	h["(*time.Timer).Stop"] = func(i *interpreter, fr *frame, fn *ssa.Function, args []value) value {
+		t := handleOf(args[0]).(*modelTimer)
+		was := !t.stopped && !t.fired
+		t.stopped = true
+		return was
 	}
 	h["(*sync.Mutex).Lock"] = func(i *interpreter, fr *frame, fn *ssa.Function, args []value) value {
 		i.mutexLock(ptr(args[0]), "Mutex.Lock")
